@@ -17,7 +17,7 @@ import (
 	"golang.org/x/tools/go/ssa"
 )
 
-// Poly maps a monomial (atoms joined by '*', sorted; "" for the constant term)
+// Poly maps a monomial (atoms joined by '×', sorted; "" for the constant term)
 // to its coefficient.
 type Poly map[string]int64
 
@@ -51,9 +51,9 @@ func mulMono(a, b string) string {
 	if b == "" {
 		return a
 	}
-	parts := append(strings.Split(a, "*"), strings.Split(b, "*")...)
+	parts := append(strings.Split(a, "×"), strings.Split(b, "×")...)
 	sort.Strings(parts)
-	return strings.Join(parts, "*")
+	return strings.Join(parts, "×")
 }
 
 func (p Poly) mul(q Poly) Poly {
@@ -88,7 +88,7 @@ func (p Poly) singleAtom() (string, bool) {
 		return "", false
 	}
 	for k, v := range p {
-		if v == 1 && k != "" && !strings.Contains(k, "*") {
+		if v == 1 && k != "" && !strings.Contains(k, "×") {
 			return k, true
 		}
 	}
@@ -150,7 +150,37 @@ type Polyizer struct {
 	// Subst optionally replaces a value by another before conversion (used
 	// to see through phis or cells a rule has resolved).
 	Subst func(v ssa.Value) ssa.Value
-	depth int
+	// Inline makes calls to pure single-block functions (no loads, stores or
+	// calls; e.g. mm.PageFromAddress, Frame.Address) transparent.
+	Inline bool
+	env    map[ssa.Value]Poly
+	depth  int
+}
+
+// pureBody returns the returned value of fn if fn is a single block of pure
+// arithmetic on its parameters.
+func pureBody(fn *ssa.Function) (ssa.Value, bool) {
+	if fn == nil || len(fn.Blocks) != 1 || len(fn.FreeVars) != 0 {
+		return nil, false
+	}
+	var ret ssa.Value
+	for _, in := range fn.Blocks[0].Instrs {
+		switch x := in.(type) {
+		case *ssa.BinOp, *ssa.Convert, *ssa.ChangeType, *ssa.DebugRef:
+		case *ssa.UnOp:
+			if x.Op == token.MUL || x.Op == token.ARROW {
+				return nil, false
+			}
+		case *ssa.Return:
+			if len(x.Results) != 1 {
+				return nil, false
+			}
+			ret = x.Results[0]
+		default:
+			return nil, false
+		}
+	}
+	return ret, ret != nil
 }
 
 func log2(m uint64) (int, bool) {
@@ -171,9 +201,33 @@ func (z *Polyizer) Of(v ssa.Value) Poly {
 	if z.depth > 40 {
 		return polyAtom("deep:" + v.Name())
 	}
+	if z.env != nil {
+		if p, ok := z.env[v]; ok {
+			return p
+		}
+	}
 	if z.Subst != nil {
 		if r := z.Subst(v); r != nil && r != v {
 			return z.Of(r)
+		}
+	}
+	if z.Inline {
+		if call, ok := v.(*ssa.Call); ok && isIntegral(call.Type()) {
+			if fn := call.Common().StaticCallee(); fn != nil {
+				if ret, ok := pureBody(fn); ok {
+					env := map[ssa.Value]Poly{}
+					for i, p := range fn.Params {
+						if i < len(call.Common().Args) && isIntegral(p.Type()) {
+							env[p] = z.Of(call.Common().Args[i])
+						}
+					}
+					old := z.env
+					z.env = env
+					r := z.Of(ret)
+					z.env = old
+					return r
+				}
+			}
 		}
 	}
 	if c, ok := constEval(v); ok && c.Kind() == constant.Int {
